@@ -12,7 +12,7 @@ import vlib
 
 AUTHN_ACTIONS = ['TokenCreate', 'TokenSetStatus', 'TokenDelete', 'UserSetStatus', 'UserDelete', 'SessionCreate',
                  'SessionExpire', 'Tick', 'AuthBegin', 'AuthEnd']
-PW_FAMILIES = 7
+PW_FAMILIES = 8
 SECRET_FAMILIES = 8
 
 
@@ -30,20 +30,33 @@ def action_coverage(ctx, r, module):
 
 
 def replay_timed(ctx, binary, cases, tick_ms):
-    """Timed cases map spec time onto the wall clock; an attempt that misses its window is reported by the driver as infra
-    (never a verdict).  Those cases are re-run with a longer tick before they are allowed to make the run inconclusive."""
-    res, lines = ctx.replay(binary, cases, procs=min(16, max(1, len(cases) // 8)), par=6, args={'tick_ms': tick_ms}, timeout=1500)
+    """Timed cases map spec time onto the wall clock.  An attempt that misses its window is reported by the driver as infra
+    (never a verdict) and the case is re-run with a longer tick.  A failure of a timed case counts only if it reproduces with a
+    4x longer tick (timer latency on a loaded machine must not produce a verdict); one that does not is exit 2."""
+    procs = max(1, min(vlib.NCPU, len(cases) // 8))
+    res, lines = ctx.replay(binary, cases, procs=procs, par=8, args={'tick_ms': tick_ms}, timeout=2400)
     for factor in (2, 4):
         redo = [i for i, r in enumerate(res) if not r.get('ok') and r.get('kind') == 'infra' and 'timing window' in r.get('msg', '')]
         if not redo:
             break
         vlib.log(f'{len(redo)} timed cases missed their wall-clock window; retrying with tick {tick_ms * factor} ms')
-        res2, _ = ctx.replay(binary, [cases[i] for i in redo], procs=min(8, len(redo)), par=4,
-                             args={'tick_ms': tick_ms * factor}, timeout=1500)
+        res2, _ = ctx.replay(binary, [cases[i] for i in redo], procs=max(1, min(vlib.NCPU, len(redo) // 4)), par=4,
+                             args={'tick_ms': tick_ms * factor}, timeout=2400)
         for i, r in zip(redo, res2):
             r['id'] = i
             res[i] = r
         ctx.extra_cov['timed_cases_retried_with_longer_tick'] = ctx.extra_cov.get('timed_cases_retried_with_longer_tick', 0) + len(redo)
+    bad = [i for i, r in enumerate(res) if not r.get('ok') and r.get('kind') != 'infra']
+    if bad:
+        vlib.log(f'{len(bad)} timed cases failed; confirming with tick {tick_ms * 4} ms')
+        sel = bad[:40]
+        res2, _ = ctx.replay(binary, [cases[i] for i in sel], procs=max(1, min(vlib.NCPU, len(sel) // 4)), par=4,
+                             args={'tick_ms': tick_ms * 4}, timeout=2400)
+        for i, r in zip(sel, res2):
+            if r.get('ok') or r.get('kind') == 'infra':
+                res[i] = {'id': i, 'ok': False, 'kind': 'infra',
+                          'msg': 'unrepeatable timing-dependent failure (did not reproduce with a 4x longer tick): ' + str(res[i].get('msg'))[:300]}
+        ctx.extra_cov['timed_failures_rechecked_with_longer_tick'] = len(sel)
     return res, lines
 
 
@@ -57,7 +70,7 @@ def run(ctx):
     binary = ctx.go_build('cred')
 
     # ---------------------------------------------------------------- 1. stored hash formats (input-shaped, exhaustive)
-    rh = ctx.tlc_must_pass('CredHash', 'CredHash.MC.cfg', timeout=600, dump=True, workers=4)
+    rh = ctx.tlc_must_pass('CredHash', 'CredHash.MC.cfg', timeout=1200, dump=True, workers=min(4, vlib.NCPU))
     fams = sorted(ctx.rng.sample(range(SECRET_FAMILIES), 4)) if quick else list(range(SECRET_FAMILIES))
     hcases = []
     outcomes = set()
@@ -67,13 +80,13 @@ def run(ctx):
                        'exp': st['exp'], 'families': fams})
     if outcomes != {'match', 'nomatch', 'undecodable'}:
         raise vlib.Inconclusive(f'vacuous hash table: outcomes {outcomes}')
-    res, lines = ctx.replay(binary, hcases, procs=4, timeout=600)
+    res, lines = ctx.replay(binary, hcases, procs=min(4, vlib.NCPU), timeout=1200)
     ctx.absorb(res, lines, sample=1)
     ctx.extra_cov['hash_cases'] = len(hcases)
     ctx.extra_cov['secret_families'] = fams
 
     # ---------------------------------------------------------------- 2. passwords
-    rp = ctx.tlc_must_pass('CredPassword', f'CredPassword.MC_{tier}.cfg', timeout=1500, dump=True, workers=8)
+    rp = ctx.tlc_must_pass('CredPassword', f'CredPassword.MC_{tier}.cfg', timeout=2400, dump=True)
     maxops = 4 if quick else 5
     pcases = []
     for st in ctx.dump_states(rp):
@@ -88,18 +101,18 @@ def run(ctx):
     chosen = vlib.sample_list(ctx.rng, pcases, budget)
     for i, c in enumerate(chosen):
         c['family'] = (i + ctx.seed) % PW_FAMILIES
-    res, lines = ctx.replay(binary, chosen, procs=16, timeout=1700)
+    res, lines = ctx.replay(binary, chosen, procs=vlib.NCPU, timeout=2400)
     ctx.absorb(res, lines, sample=1)
     ctx.extra_cov['password_histories_total'] = total_pw
     ctx.extra_cov['password_histories_replayed'] = len(chosen)
 
     # ---------------------------------------------------------------- 3. authentication
-    ra = ctx.tlc_must_pass('CredAuthn', f'CredAuthn.MC_{tier}.cfg', timeout=1500, coverage=True, workers=8)
+    ra = ctx.tlc_must_pass('CredAuthn', f'CredAuthn.MC_{tier}.cfg', timeout=2400, coverage=True)
     ra.coverage = action_coverage(ctx, ra, 'CredAuthn')
     ctx.check_coverage(ra, AUTHN_ACTIONS)
     ctx.extra_cov['authn_action_coverage'] = {a: ra.coverage.get(a, 0) for a in AUTHN_ACTIONS}
     # 3a. every history up to the bound (quick: no clock ticks, so no waiting; thorough: with ticks)
-    rg = ctx.tlc_must_pass('CredAuthn', f'CredAuthn.Gen_{tier}.cfg', timeout=1500, dump=True, workers=8)
+    rg = ctx.tlc_must_pass('CredAuthn', f'CredAuthn.Gen_{tier}.cfg', timeout=2400, dump=True)
     gcases = []
     for st in ctx.dump_states(rg):
         h = st['hist']
@@ -116,7 +129,7 @@ def run(ctx):
     acases = [authn_case(st, i, timed_gen and any(s['a'] == 'Tick' for s in st['hist'])) for i, st in enumerate(gchosen)]
     untimed = [c for c in acases if not c['timed']]
     timed = [c for c in acases if c['timed']]
-    res, lines = ctx.replay(binary, untimed, timeout=1500)
+    res, lines = ctx.replay(binary, untimed, timeout=2400)
     ctx.absorb(res, lines, sample=1)
     ctx.extra_cov['authn_histories_total'] = total_gen
     ctx.extra_cov['authn_histories_replayed'] = len(acases)
@@ -124,7 +137,7 @@ def run(ctx):
     nsim, depth, tick = (350, 10, 600) if quick else (1200, 13, 600)    # nsim per TLC worker
     with open(os.path.join(ctx.spec_dir, f'CredAuthn.Sim_{tier}.cfg')) as f:
         simcfg = f.read() + '\n'
-    rs = ctx.tlc('CredAuthn', simcfg, timeout=1500, simulate={'num': nsim}, depth=depth, workers=1 if quick else 4)
+    rs = ctx.tlc('CredAuthn', simcfg, timeout=1500, simulate={'num': nsim}, depth=depth, workers=1 if quick else min(4, vlib.NCPU))
     if rs.timed_out or not rs.ok:
         raise vlib.Inconclusive('CredAuthn simulation failed: ' + rs.stdout[-1500:])
     seen = set()
@@ -135,6 +148,31 @@ def run(ctx):
             continue
         seen.add(key)
         timed.append(authn_case(last, len(timed), True))
+    # 3c. session-focused histories with time, every history to the bound: a request held across a clock tick (the session
+    #     object in the handler's hands expires), expiry in the store, sign-out, renewal. Histories in which a held request
+    #     crosses a tick are always replayed; the others are sampled by seed.
+    rss = ctx.tlc_must_pass('CredAuthn', f'CredAuthn.Sess_{tier}.cfg', timeout=2400, dump=True, workers=min(4, vlib.NCPU))
+    smax = 5 if quick else 6
+    crossing, other = [], []
+    for st in ctx.dump_states(rss):
+        h = st['hist']
+        if len(h) != smax or not any(x['a'] == 'SessionCreate' for x in h) or not any(x['a'] == 'Tick' for x in h):
+            continue
+        held, cross = False, False
+        for x in h:
+            if x['a'] == 'AuthBegin' and x['exp']['status'] == 'held':
+                held, ticked = True, False
+            elif x['a'] == 'Tick' and held:
+                ticked = True
+            elif x['a'] == 'AuthEnd':
+                cross = cross or (held and ticked)
+                held = False
+        (crossing if cross else other).append(st)
+    ctx.extra_cov['session_histories_total'] = len(crossing) + len(other)
+    ctx.extra_cov['session_histories_with_request_held_across_a_tick'] = len(crossing)
+    sess_sel = vlib.sample_list(ctx.rng, crossing, 250 if quick else 4000) + vlib.sample_list(ctx.rng, other, 150 if quick else 4000)
+    for st in sess_sel:
+        timed.append(authn_case(st, len(timed), True))
     if not timed:
         raise vlib.Inconclusive('no timed behaviours')
     res, lines = replay_timed(ctx, binary, timed, tick)
@@ -147,6 +185,8 @@ def run(ctx):
     n_inact_tok = sum(1 for c in allc for s in c['steps'] if s['a'] == 'AuthEnd' and s['exp']['status'] == 'refused')
     n_forb = sum(1 for c in allc for s in c['steps'] if s['a'] == 'AuthBegin' and s['exp']['status'] == 'forbidden')
     n_tick_sess = sum(1 for c in timed if any(s['a'] == 'Tick' for s in c['steps']) and any(s['a'] == 'SessionCreate' for s in c['steps']))
+    if len(crossing) == 0:
+        raise vlib.Inconclusive('no history with a session request held across a clock tick')
     if min(n_ok, n_inact_tok, n_forb, n_tick_sess) == 0:
         raise vlib.Inconclusive(f'vacuous authentication cases: ok={n_ok} refused-at-check={n_inact_tok} forbidden={n_forb} timed-sessions={n_tick_sess}')
     ctx.extra_cov.update({'requests_authenticated_expected': n_ok, 'requests_refused_at_permission_check_expected': n_inact_tok,
@@ -155,8 +195,8 @@ def run(ctx):
     ctx.rule = ('hash table: every (stored variant, decoder set, stored secret, tried secret, raw-or-hash candidate), each under the '
                 'listed secret families (token-shaped, one char apart, empty/white space, PHC look-alikes, unicode/NUL, 5 kB, letter '
                 'case, 1-3 bytes). Passwords: histories of MaxOps calls of Set/Compare/CompareAndSet/DeleteUser over 2 users and '
-                'passwords {1,2,never-set}, sampled by seed to the bcrypt budget, password ids concretised by 7 families (shared '
-                'prefix, 72-byte boundary, composed/decomposed unicode, random, letter case, white space, one bit apart); non-trivial = '
+                'passwords {1,2,never-set}, sampled by seed to the bcrypt budget, password ids concretised by 8 families (shared '
+                'prefix, 72-byte boundary, composed/decomposed unicode, random, letter case, white space, one bit apart, p / p+NUL+p); non-trivial = '
                 '>=2 successful changes and >=1 check. Authentication: every 3-step history containing a request (sampled by seed '
                 'above the budget; token hashing off/sha256/sha512 round-robin) plus simulated behaviours with clock ticks; '
                 'non-trivial = behaviour with both an authenticated and a refused request')
